@@ -714,6 +714,8 @@ def run(chk):
     rule_r5(chk, model)
     rule_r7(chk, model)
     rule_r6(chk, model)
+    from .. import gens
+    gens.apply(chk, "C10-R8", {"series"}, 5, "a generator of periods or variants consumed twice leaves later variants / later passes without data")
     chk.assumptions = [
         "numpy element-wise functions preserve which cells are NaN (exemptions listed in NONDIRTY with reasons)",
         "implicit exceptions are not modelled: a path that raises leaves no obligation",
